@@ -34,9 +34,13 @@ type c26Chain struct {
 	bitcoin.Chain // nil: no other method is expected to be called
 	txs           map[bitcoin.Hash]*bitcoin.Transaction
 	n             int
+	failFor       *bitcoin.Hash // the lookup of this transaction fails (Bitcoin client trouble)
 }
 
 func (c *c26Chain) GetTransaction(h bitcoin.Hash) (*bitcoin.Transaction, error) {
+	if c.failFor != nil && *c.failFor == h {
+		return nil, fmt.Errorf("transaction lookup failed")
+	}
 	if tx, ok := c.txs[h]; ok {
 		return tx, nil
 	}
@@ -293,6 +297,21 @@ func c26Run(r *vrep.R, c c26Case) (compared bool) {
 			ref.fee = c.Fee
 			ref.outputs = []c26Out{{walletScript, total - c.Fee}}
 			builder, err = assembleDepositSweepTransaction(ch, &priv.PublicKey, main, deposits, c.Fee)
+			// the same proposal while the funding transaction of one deposit cannot be
+			// fetched: a transaction that leaves a proposed deposit out (and charges the
+			// whole fee to the rest) must not come out
+			if err == nil && len(deposits) >= 2 {
+				for k, d := range deposits {
+					h := d.Utxo.Outpoint.TransactionHash
+					ch.failFor = &h
+					fb, ferr := assembleDepositSweepTransaction(ch, &priv.PublicKey, main, deposits, c.Fee)
+					ch.failFor = nil
+					if ferr == nil && fb != nil {
+						report("sweep-incomplete-on-lookup-failure", fmt.Sprintf("the funding transaction of deposit %d of %d could not be fetched, yet a sweep transaction was assembled (it cannot spend every proposed deposit)", k, len(deposits)))
+						break
+					}
+				}
+			}
 
 		case "redemption":
 			redeemable := int64(0)
